@@ -192,13 +192,19 @@ def verify_SLOW():
 
     class Spec:
         calls = {}
+        methods = {}
 
         def __init__(s):
             def getenv(ex, st, n, args, kwargs):
                 key = args[0].t
                 default = ex.to_ref(st, args[1]) if len(args) > 1 else NONE
                 return [(st, V("ref", z3.If(ENV_SET(key), ENV_VAL(key), default)))]
-            s.calls = {"os.environ.get": getenv}
+            s.calls = {"os.environ.get": getenv, "os.getenv": getenv}
+    prev_contains = REG.contains_hook
+    REG.globals["os.environ"] = V("ref", fresh("environ"), "environ")
+    REG.contains_hook = lambda ex, st, container, item: ENV_SET(ex.to_ref(st, item)) if container.py == "environ" else prev_contains(ex, st, container, item)
+    prev_item = REG.item_hook
+    REG.item_hook = lambda ex, st, o, k: [(st, V("ref", ENV_VAL(ex.to_ref(st, k))))] if o.py == "environ" else prev_item(ex, st, o, k)
     ex = Executor("_globals.SLOW", Spec(), REG)
     ex.unit_node = node
     st = State()
@@ -215,6 +221,7 @@ def verify_SLOW():
     except Exception as e:
         rep.error = "unsupported: %s" % e
         return rep
+    REG.contains_hook, REG.item_hook = prev_contains, prev_item
     rep.obligations = obls + ex.obls
     rep.results = solve.discharge_all(rep.obligations, REG.specfuns, fuel=1)
     return rep
